@@ -88,12 +88,16 @@ Opaque(ty) ==
     [] ty.k = "vec" /\ ~ty.sc -> [c |-> "vec", ty |-> ty, es |-> [i \in 1..ty.n |-> IF i = 1 THEN Opaque(ty.e) ELSE ConstOf(ty.e, i)]]
     [] OTHER -> ConstOf(ty, 1)
 
-MaskConst(ty, n) == IF ty.sc THEN CSimple(IF n % 2 = 0 THEN "zero" ELSE "undef", ty)
-                    ELSE [c |-> "vec", ty |-> ty, es |-> [i \in 1..ty.n |-> CInt(I32, (n + i) % (2 * ty.n))]]
+\* mask of a shufflevector whose operands have oplen elements; form: "" (element list), undef, poison, zero
+MaskConst(ty, n, oplen, form) ==
+  IF form # "" THEN CSimple(form, ty)
+  ELSE IF ty.sc THEN CSimple(IF n % 2 = 0 THEN "zero" ELSE "undef", ty)
+  ELSE [c |-> "vec", ty |-> ty, es |-> [i \in 1..ty.n |-> CInt(I32, (n + i) % (2 * oplen))]]
 
 \* constant for operand k of case c (op: the operand record)
 SlotConst(c, op, k) ==
-  CASE op.slot = "Mask" -> MaskConst(op.ty, k)
+  CASE op.slot = "Mask" -> MaskConst(op.ty, k, IF Has(c, "T") /\ Has(c.T, "n") THEN c.T.n ELSE op.ty.n,
+                                     IF Has(c, "attrs") /\ Has(c.attrs, "maskform") THEN c.attrs.maskform ELSE "")
     [] op.slot = "Indices" -> CInt(op.ty, IF op.cv >= 0 THEN op.cv ELSE 0)
     [] op.slot = "Index" -> CInt(op.ty, 1)
     [] OTHER -> ConstOf(op.ty, op.i)
@@ -347,6 +351,11 @@ ModuleProgs == <<
   Prog("mod:unnamed-globals", "module", <<DefGlobal("", I32, CInt(I32, 1)), DefGlobal("", I8, CInt(I8, 2)), DefGlobal("x", TyPtr(I32), CGRef("0", TyPtr(I32)))>>, NoFn),
   Prog("mod:blockaddress", "module", BaseDecls \o <<DefGlobal("ba", I8Ptr, [c |-> "blockaddress", f |-> "f", b |-> 2])>>,
        Fn("f", TyVoid, <<>>, FALSE, <<Blk("entry", <<>>, Br(2)), Blk("t", <<>>, RetVoid)>>)),
+  \* the target of a blockaddress is an unnamed block (numbered after an unnamed parameter): the block
+  \* numbers must be assigned before the global initialiser is printed
+  Prog("mod:blockaddress-unnamed", "module", BaseDecls \o <<DefGlobal("ba", I8Ptr, [c |-> "blockaddress", f |-> "f", b |-> 2]),
+                                                              DefGlobal("bb", I8Ptr, [c |-> "blockaddress", f |-> "f", b |-> 3])>>,
+       Fn("f", TyVoid, <<[name |-> "", ty |-> I32]>>, FALSE, <<Blk("", <<>>, Br(2)), Blk("", <<>>, Br(3)), Blk("", <<>>, RetVoid)>>)),
   Prog("mod:dso_local_equivalent", "module", BaseDecls,
        Fn("f", HTy, <<>>, FALSE, <<Blk("", <<>>, RetVal(HTy, RConst([c |-> "dso_local_equivalent", name |-> "h", ty |-> HTy])))>>)),
   Prog("mod:unnamed-func-params", "module", BaseDecls,
@@ -354,6 +363,36 @@ ModuleProgs == <<
           <<Blk("", <<MkInst(MkCase(KindOf("add"), "scaffold", "i32", DefaultCfg(KindOf("add"), "i32"), <<>>, NoAttrs, TRUE, FALSE), "", <<RParam(1), RParam(3)>>)>>,
                 RetVal(I32, RInst(1, 1)))>>))
 >>
+
+\* Unnamed globals of all four kinds.  LLVM numbers unnamed global values in the order they are printed
+\* (variables, aliases, ifuncs, functions); the API lets them be attached in any order.  The core
+\* entities g1 (variable), g2 (variable pointing to g1), a (alias of g1), d (declared function), f (the
+\* defined function, returning d; resolver of i), i (ifunc) are created in every order that respects
+\* "referenced object first" (40 orders), followed by a second entity of each kind that refers back
+\* into the core.  A reference is the index of the creating call (CGRefIdx), never a number: the
+\* harness numbers the entities itself, in print order.
+CGRefIdx(k, ty) == [c |-> "gref", name |-> "", idx |-> k, ty |-> ty]
+UEnts == {"g1", "g2", "a", "d", "f", "i"}
+UOrders == {o \in [1..6 -> UEnts] :
+              /\ \A x, y \in 1..6 : x # y => o[x] # o[y]
+              /\ \A x, y \in 1..6 : (o[x] = "g1" /\ o[y] \in {"g2", "a"}) \/ (o[x] = "d" /\ o[y] = "f") \/ (o[x] = "f" /\ o[y] = "i") => x < y}
+ResolverTy == TyPtr(TyFunc(HTy, <<>>, FALSE))
+UnnamedProg(o) ==
+  LET pos(en) == CHOOSE x \in 1..6 : o[x] = en
+      decl(en) ==
+        CASE en = "g1" -> DefGlobal("", I32, CInt(I32, 1))
+          [] en = "g2" -> DefGlobal("", TyPtr(I32), CGRefIdx(pos("g1"), TyPtr(I32)))
+          [] en = "a"  -> [op |-> "NewAlias", name |-> "", ty |-> I32, init |-> CGRefIdx(pos("g1"), TyPtr(I32))]
+          [] en = "d"  -> DeclFunc("", HTy)
+          [] en = "f"  -> [op |-> "DefFunc", name |-> "", ty |-> TyVoid]
+          [] en = "i"  -> [op |-> "NewIFunc", name |-> "", ty |-> HTy.e, init |-> CGRefIdx(pos("f"), ResolverTy)]
+      tail == <<DefGlobal("", TyPtr(I32), CGRefIdx(pos("a"), TyPtr(I32))),                                   \* 7: variable -> alias
+                [op |-> "NewAlias", name |-> "", ty |-> TyPtr(I32), init |-> CGRefIdx(pos("g2"), TyPtr(TyPtr(I32)))],  \* 8: alias of g2
+                DeclFunc("", TyPtr(TyFunc(I32, <<I32>>, FALSE))),                                              \* 9: declared function
+                [op |-> "NewIFunc", name |-> "", ty |-> HTy.e, init |-> CGRefIdx(pos("f"), ResolverTy)],      \* 10: second ifunc
+                DefGlobal("", TyPtr(TyFunc(I32, <<I32>>, FALSE)), CGRefIdx(9, TyPtr(TyFunc(I32, <<I32>>, FALSE))))>>  \* 11: variable -> 9
+  IN Prog("mod:unnamed/" \o ToString(o), "module", [x \in 1..6 |-> decl(o[x])] \o tail,
+          Fn("", HTy, <<>>, FALSE, <<Blk("", <<>>, RetVal(HTy, RConst(CGRefIdx(pos("d"), HTy))))>>))
 
 CoverKinds == Kinds \o CExprs
 \* the config family is exercised by C15; C03 replays it as well (every repetition count prints validly)
@@ -562,16 +601,16 @@ MixKinds == {i \in 1..NKinds : Kinds[i].ctx = "plain" /\ Kinds[i].cat = "inst" /
 MixParams == <<I32, I64, I8, I1, F32, F64, TyPtr(I32), Concrete.vec, Concrete.fvec, Concrete.svec, PairTy, Concrete.arr, I8Ptr,
                TyPtrAS(I32, 1), TyPtrAS(Concrete.nstruct, 1)>>
 \* sources of an operand of type ty: a parameter, up to two earlier results, a constant
-MixSources(op, pos) ==
-  IF op.src = "const" THEN {RConst(SlotConst([kind |-> ""], op, pos))}
+MixSources(cc, op, pos) ==
+  IF op.src = "const" THEN {RConst(SlotConst(cc, op, pos))}
   ELSE IF op.src = "func" THEN {RFunc("callee" \o ToString(Len(env) + 1))}
   ELSE LET ps == {RParam(i) : i \in {j \in 1..Len(MixParams) : MixParams[j] = op.ty}}
            rs == {RInst(1, i) : i \in {j \in 1..Len(env) : env[j].ty = op.ty}}
            all == ps \cup rs \cup {RConst(ConstOf(op.ty, pos))}
        IN {RandomElement(all), RandomElement(all)}
-RECURSIVE MixVals(_, _)
-MixVals(ops, pos) == IF pos > Len(ops) THEN {<<>>}
-                     ELSE {<<v>> \o rest : v \in MixSources(ops[pos], pos), rest \in MixVals(ops, pos + 1)}
+RECURSIVE MixVals(_, _, _)
+MixVals(cc, ops, pos) == IF pos > Len(ops) THEN {<<>>}
+                         ELSE {<<v>> \o rest : v \in MixSources(cc, ops[pos], pos), rest \in MixVals(cc, ops, pos + 1)}
 MixCases(e) == {c \in Cases(e) : c.fam \in {"class", "variant", "flags", "path", "as"} /\ c.cfg.bund = <<>>}
 MixSteps ==
   LET n == Len(env) + 1
@@ -580,7 +619,7 @@ MixSteps ==
       c == [c0 EXCEPT !.named = TRUE]
   IN {[inst |-> MkInst(c, IF c.res = TyVoid THEN "" ELSE NextName(n), vals), ty |-> c.res, w |-> 0, v |-> <<>>, p |-> FALSE, ub |-> FALSE,
        callee |-> IF \E j \in 1..Len(c.ops) : c.ops[j].role = "callee" THEN c.ops[CHOOSE j \in 1..Len(c.ops) : c.ops[j].role = "callee"].ty ELSE TyVoid]
-      : vals \in MixVals(c.ops, 1)}
+      : vals \in MixVals(c, c.ops, 1)}
 \* every call in a mix program has its own callee declaration (the signatures differ)
 MixProg(insts, callees) ==
   Prog("mix", "mix", BaseDecls \o callees,
@@ -588,7 +627,8 @@ MixProg(insts, callees) ==
           <<Blk("", insts, RetVoid)>>))
 
 \* --- Init / Next ------------------------------------------------------------
-NCover == Len(CoverKinds) + Len(ConstForms) + Len(ModuleProgs)
+AllModuleProgs == ModuleProgs \o SetToSeq({UnnamedProg(o) : o \in UOrders})
+NCover == Len(CoverKinds) + Len(ConstForms) + Len(AllModuleProgs)
 Init == /\ stage = "init" /\ k = 0 /\ env = <<>>
         /\ prog = Prog("empty", Mode, <<>>, NoFn)
 
@@ -599,7 +639,7 @@ CoverNext ==
   \/ /\ stage = "kind" /\ k > Len(CoverKinds) /\ k <= Len(CoverKinds) + Len(ConstForms)
      /\ prog' = ConstProg(k - Len(CoverKinds)) /\ stage' = "case" /\ UNCHANGED <<k, env>>
   \/ /\ stage = "kind" /\ k > Len(CoverKinds) + Len(ConstForms)
-     /\ prog' = ModuleProgs[k - Len(CoverKinds) - Len(ConstForms)] /\ stage' = "case" /\ UNCHANGED <<k, env>>
+     /\ prog' = AllModuleProgs[k - Len(CoverKinds) - Len(ConstForms)] /\ stage' = "case" /\ UNCHANGED <<k, env>>
 
 BodyInsts == IF prog.fn.blocks = <<>> THEN <<>> ELSE SubSeq(prog.fn.blocks[1].insts, 1, Len(env))
 ExecNext ==
